@@ -53,7 +53,7 @@ def gen_case(rng, nthreads=None, ncalls=None, exhaustive=False):
         threads.append([(rng.choice(mids + ([3] if rng.random() < 0.1 else [])), rng.choice([0, 1, 1, 5])) for _ in range(n)])
     total = sum(4 * len(t) for t in threads)
     sched = [rng.randrange(nth) for _ in range(rng.randint(0, total))]
-    return {"partial": rng.random() < 0.2, "terms": terms, "threads": threads, "sched": sched}
+    return {"partial": rng.random() < 0.2, "terms": terms, "threads": threads, "sched": sched, "shared": rng.random() < 0.35}
 
 
 def op_counts(model_obs, nthreads):
